@@ -33,7 +33,7 @@ Clauses and oracles
 Tolerances: 1e-4 relative on rewards/losses/gradients; running statistics 1e-4 + 4*eps32*(max|x|/std)^2 (conditioning of float32 Welford).
 Bound: stated exactly in Report(bound=...) built in main(); tiny attention policies (embed 16, 1 layer), float32, CPU.
 Harness-side guards (no effect on valid runs): policies are called with max_steps=60 so that a decoding loop that never reaches
-`done` ends, and a watchdog prints the JSON with an error when the time budget (--budget, default 55 s / 570 s) is exhausted.
+`done` ends, and a watchdog prints the JSON with an error when the time budget (--budget, default 600 s / 3000 s) is exhausted.
 KNOWN lists the clauses that the unchanged library really falsifies (reported via rep.known, never silenced).
 """
 import contextlib
@@ -740,7 +740,7 @@ def main():
         sys.stdout.flush()
         os._exit(0)
 
-    budget = A.budget or (570.0 if THOROUGH else 55.0)
+    budget = A.budget or (3000.0 if THOROUGH else 600.0)   # a guard against hangs, far above the normal run time (5-60 s): wall-clock, so it must not bite on a loaded machine
     timer = threading.Timer(budget, out_of_time)
     timer.daemon = True
     timer.start()
